@@ -95,6 +95,19 @@ fn real_main() -> i32 {
             0
         }
         "ubrun" => sverif::ub::replay_file(&args[2]),
+        "prog" => {
+            // debugging aid: a program in the harness's own text form, solved by reference and engine
+            let txt = std::fs::read_to_string(&args[2]).unwrap_or_default();
+            match sverif::ast_parse::parse_program(&txt) {
+                Ok(p) => {
+                    let r = sverif::refsolve::solve_program(&p, sverif::refsolve::Limits::default());
+                    println!("reference: {:?} {} answers", r.status, r.answers().len());
+                    match sverif::engine::run_program(&p, 50, 0, 50_000_000) { Ok(run) => println!("engine: {} answers {:?}", run.answers.len(), run.answers.iter().map(|a| a.display.clone()).collect::<Vec<_>>()), Err(e) => println!("engine failed: {:?}", e) }
+                    0
+                }
+                Err(e) => { eprintln!("parse error: {:?}", e); 3 }
+            }
+        }
         _ => { eprintln!("unknown command"); 3 }
     }
 }
